@@ -35,20 +35,42 @@ CRASH = {'AssertionError': 1, 'KeyError': 2, 'InternalError': 3, 'AttributeError
 # ---------------------------------------------------------------------------
 # oracle
 
+def form_of(case):
+    """the construct an input was generated from (statement form, expression
+    sub-family, ...): part of the signature, so that a known finding covers
+    its own failure class in its own constructs and nothing else"""
+    if case.get('form'):
+        return case['form']
+    fam, cls = case.get('fam', '?'), case.get('cls', '')
+    parts = cls.split('/')
+    if fam in ('form', 'form-token'):
+        return parts[0]
+    if fam == 'expr':
+        if parts[0] in ('args', 'labels', 'labels-bare') and len(parts) > 1:
+            return parts[0] + '/' + parts[1]
+        if parts[0] in ('bin', 'bin-cond', 'bin-un', 'bin-un-chain', 'un') and len(parts) > 1:
+            return parts[0] + '/' + parts[1]
+        return parts[0]
+    if fam == 'block-skel':
+        return 'skel-' + parts[0]
+    return fam
+
+
 def signatures(case, r):
     """every property failure exhibited by one worker result:
     [(signature, level, debug, verdict)]"""
     out = []
+    form = form_of(case)
     if not isinstance(r, dict) or 'res' not in r:
-        return [(f'C06/compiler-process-died({case.get("fam", "?")})', None, None, r)]
+        return [(f'C06/compiler-process-died@{form_of(case)}', None, None, r)]
     for lv, dbg, v in r['res']:
         k = v[0]
         sig = None
         if k == 'exc':
             phase = '' if v[4] == 'compile' else v[4] + ':'
-            sig = f'C06/internal-exception({v[1]},{v[2]},{phase}{v[3]})'
+            sig = f'C06/internal-exception({v[1]},{v[2]},{phase}{v[3]})@{form}'
         elif k == 'timeout':
-            sig = f'C06/timeout({v[1]})'
+            sig = f'C06/timeout({v[1]})@{form}'
         elif k == 'syntax':
             if not v[2]:
                 sig = 'C06/unlocated-diagnostic(SyntaxError)'
@@ -80,7 +102,9 @@ def run_check(srcs, full=True, fam='replay'):
 def shrink(src, sig, max_rounds=60):
     def holds(texts):
         rs = run_check(texts)
-        return [any(s[0] == sig for s in signatures({'fam': 'shrink'}, r)) for r in rs]
+        base = sig.split('@')[0]
+        return [any(s[0].split('@')[0] == base for s in signatures({'fam': 'shrink'}, r))
+                for r in rs]
 
     def reduce(parts, joiner):
         rounds = 0
@@ -371,7 +395,8 @@ def replay_known(ctx):
     res = run_check([f['witness']['src'] for f in fs])
     n = 0
     for f, r in zip(fs, res):
-        c = {'fam': 'known-witness', 'cls': f['id'], 'src': f['witness']['src']}
+        c = {'fam': 'known-witness', 'cls': f['id'], 'src': f['witness']['src'],
+             'form': f['witness'].get('form')}
         for sig, lv, dbg, v in signatures(c, r):
             ctx.report(sig, {'suite': 'known-witness', 'class': f['id'], 'src': c['src'],
                              'level': lv, 'debug': dbg, 'verdict': v}, True)
@@ -460,6 +485,6 @@ def replay(path):
     hit = False
     for sig, lv, dbg, v in signatures({'fam': 'replay'}, r):
         print(f'-O{lv}{" -g" if dbg else ""}: {sig}   {v[-1] if v[0] == "exc" else ""}')
-        hit = hit or sig == d.get('signature')
+        hit = hit or sig.split('@')[0] == (d.get('signature') or '').split('@')[0]
     print('reproduced' if hit else 'not reproduced')
     return 1 if hit else 0
